@@ -112,12 +112,13 @@ extern "C" void harness_c36_real_imag()
     RCP<const Basic> s2 = sqrt(integer(2)), s3 = sqrt(integer(3));
     RCP<const Basic> w = add(s2, mul(I, s3)); // sqrt(2) + I sqrt(3)
     RCP<const Basic> e;
-    switch (verif_choice("k", 6)) {
+    switch (verif_choice("k", 7)) {
         case 0: e = mul(z, w); break;
         case 1: e = pow(w, integer(2)); break;
         case 2: e = add(mul(z, pow(w, integer(2))), mul(c, s2)); break;
         case 3: e = pow(add(w, c), integer(-1)); break;
         case 4: e = mul(pow(add(z, s2), integer(3)), s3); break;
+        case 6: e = pow(add(w, c), integer(-2)); break;
         default: e = mul(add(z, w), add(w, c)); break;
     }
     RCP<const Basic> re, im;
